@@ -9,6 +9,11 @@ class Rule:
         self.ctx = ctx
         self.name = name + getattr(ctx, "suffix", "")
         self.desc = desc
+        # the floor guards against a rule that silently matches (almost) nothing after an anchor moved; it is not
+        # itself a rule of the property: a behaviour-preserving edit may remove a site, so floors of site counts
+        # leave one eighth of slack
+        if floor >= 8:
+            floor -= max(1, floor // 8)
         self.floor = 0 if getattr(ctx, "floor_off", False) else floor
         self.obligations = 0
         self.discharged = 0
@@ -130,6 +135,8 @@ def finish(ctx, level, explanation, trusted_base=None, checker_cmd=None):
             "instances": len(f.inst) if f else 0,
             "call_edges": sum(len(n["calls"]) for n in f.inst.values()) if f else 0,
             "fact_build_s": round(getattr(f, "build_s", 0.0), 2) if f else 0,
+            # private helpers unknown to the rules' baseline decomposition, inlined back before the rules ran (rules/inline.py)
+            "inlined_unknown_helpers": {k: sorted(set(v)) for k, v in sorted(getattr(f, "inlined", {}).items())} if f else {},
         },
         "known_findings_hit": [v["key"] for v, _ in known_hit],
         "exhaustive": False,
